@@ -256,10 +256,36 @@ def run(ctx):
                       {"request": c[1], "real": c[2]})
     cases = [c for c in cases if not c[2].startswith("PANIC")]
 
-    def classify(cid, req, real, model):
-        return "c10-corr:" + shape(req) + ":" + req
+    # The property leaves the order of the remaining keys after a *deleting* update open (jaq
+    # uses `swap_remove`); such results are compared as sets of entries.
+    def same_entries(a, b):
+        try:
+            va, _ = parse_vx(a.split()[1:], 0)
+            vb, _ = parse_vx(b.split()[1:], 0)
+        except (ValueError, IndexError):
+            return False
+        if not (len(va) == 2 and va[0] == "O" and len(vb) == 2 and vb[0] == "O"):
+            return False
+        key = lambda e: enc_vx(e[0]) + " " + enc_vx(e[1])
+        return sorted(map(key, va[1])) == sorted(map(key, vb[1]))
 
-    bad = verif.diff_corr(ctx, cases, "c10-position-model", classify)
+    ans = ctx.model([c[1] for c in cases])
+    bad = order_only = 0
+    for (cid, req, real), m in zip(cases, ans):
+        if real == m:
+            continue
+        toks = req.split()
+        if toks[0] == "c10.upd" and toks[3] == "I" and " 0 O" in req and real.startswith("V O") and same_entries(real, m):
+            order_only += 1
+            continue
+        bad += 1
+        if bad <= 20:
+            ctx.violation("c10-corr:" + shape(req) + ":" + req,
+                          "c10-position-model: real code and proved model disagree on `%s`" % req,
+                          {"case_id": cid, "request": req, "real": real, "model": m},
+                          broken=["correspondence c10-position-model"])
+    if order_only:
+        ctx.notes.append("%d object deletions differ from the model only in the order of the remaining keys (left open by the property)" % order_only)
     ctx.log("correspondence: %d cases, %d disagreements, %d panics" % (len(cases), bad, len(panics)))
 
     # ------------------------------------------------------------ Python's own sequence semantics
@@ -280,8 +306,9 @@ def run(ctx):
             else:
                 key = "c10-python:" + shape(req) + ":" + req
                 what = "result differs from the list position model (Python `l[i]`, `l[i:j]`, slice assignment)"
-            nkey[key] = nkey.get(key, 0) + 1
-            if nkey[key] <= 5:
+            cap = key if beyond_usize(req) else "c10-python:" + shape(req)
+            nkey[cap] = nkey.get(cap, 0) + 1
+            if nkey[cap] <= 3 and len(nkey) <= 40:
                 ctx.violation(key, what, {"request": req, "real": real, "expected": exp})
         elif len(py_samples) < 3 and cid.startswith("updslice"):
             py_samples.append({"request": req, "real": real, "python": exp})
@@ -290,6 +317,7 @@ def run(ctx):
     # ------------------------------------------------------------ the manual's defining jq code
     man = ctx.harness(["c10", "manual"])
     mtot = mfail = 0
+    mcap = {}
     man_samples = []
     fail_kinds = {}
     for l in man.splitlines():
@@ -324,7 +352,9 @@ def run(ctx):
         else:
             key = "c10-manual:%s:%s:%s:%s:%s" % (kind, real_code, v, vi, vj)
         fail_kinds[key.split(":", 3)[2] if key.count(":") >= 2 else key] = fail_kinds.get(key, 0) + 1
-        if mfail <= 4000:
+        capk = key if key.count(":") == 2 else "c10-manual:" + kind + ":" + real_code
+        mcap[capk] = mcap.get(capk, 0) + 1
+        if mcap[capk] <= 3 and len(mcap) <= 40:
             ctx.violation(key, "`%s` differs from the manual's `%s`" % (real_code, man_code), case)
     ctx.log("manual definitions: %d checks, %d disagreements" % (mtot, mfail))
 
